@@ -369,3 +369,18 @@ Definition ok_orset (c : list os_op * list Z * list (Z * list (Z * tag))) : bool
   let s := os_run ops in
   forallb2 (fun r o => (os_seq (oreps s r) =? fst o) && ent_seteq (os_ent (oreps s r)) (snd o))
            nodes obs.
+
+(** Merge of ARBITRARY counter states (any dicts, e.g. a replica restored from
+    an older snapshot of itself): a, b, c given as association lists over
+    [nodes]; the implementation's a.merge(b), b.merge(a), (a.merge(b)).merge(c),
+    a.merge(b.merge(c)), a.merge(a) given as value lists over [nodes]. *)
+Definition fn_of (l : list (Z * Z)) : gc := fun k => zget k l.
+Definition ok_gc_states (c : list Z * (list (Z * Z) * list (Z * Z) * list (Z * Z)) *
+                            (list Z * list Z * list Z * list Z * list Z)) : bool :=
+  let '(nodes, (a, b, c3), (ab, ba, ab_c, a_bc, aa)) := c in
+  let fa := fn_of a in let fb := fn_of b in let fc := fn_of c3 in
+  list_eqb Z.eqb (map (gc_merge fa fb) nodes) ab
+  && list_eqb Z.eqb (map (gc_merge fb fa) nodes) ba
+  && list_eqb Z.eqb (map (gc_merge (gc_merge fa fb) fc) nodes) ab_c
+  && list_eqb Z.eqb (map (gc_merge fa (gc_merge fb fc)) nodes) a_bc
+  && list_eqb Z.eqb (map (gc_merge fa fa) nodes) aa.
